@@ -351,3 +351,51 @@ def boundary_timing_scenarios(rng, n=1):
             }
         )
     return out
+
+
+def crossing_scenarios(rng, n=1):
+    """The monotonic clock crosses (or lands exactly on) the deadline INSIDE one particular callback of the failure-handling /
+    backoff phase - the sleep handler, the before_sleep hook or a strategy object's record_failure() - i.e. between two clock
+    reads of the engine that are normally one instant apart.  Every handler decision (sleep / defer / abort) occurs."""
+    out = []
+    for _ in range(n):
+        D = rng.choice([0.5, 1.0, 2.0, 5.0])
+        sc = rand_scenario(rng, max_attempts=(2, 4), p_special=0.0, p_budget=0.1, p_handler=0.85, p_abort=0.1, p_before_sleep=0.7, ncalls=(1, 1), placements=False,
+                           p_strategy_objects=0.6, slow_hooks=True, rf_time=True, nonretry_bias=True)
+        cfg = sc["cfg"]
+        cfg["deadline_s"] = D
+        cfg["max_unknown"] = None
+        cfg["per_class"] = {}
+        c = sc["calls"][0]
+        m = len(c["outcomes"])
+        kth = rng.randrange(0, min(2, m))  # the failed attempt during whose handling the clock crosses
+        for i in range(m - 1):
+            c["outcomes"][i] = [rng.choice(["exc", "res"]), rng.choice(RETRYABLE[:4]), None]
+        step = round(D / (2 * (kth + 1)) * 64) / 64.0
+        c["durations"] = [step] * m  # attempt kth ends at about D/2
+        c["overshoot"] = [0.0] * m
+        c["strat_values"] = [rng.choice([0.0, G, 0.25, D, D * 4]) for _ in range(m)]
+        spent = step * (kth + 1)
+        push = max(0.0, D - spent + rng.choice([-G, 0.0, 0.0, G, 0.25, 3e-7, -3e-7]))
+        where = rng.choice(["handler", "before_sleep", "record_failure"])
+        c["handler_dur"] = [0.0] * m
+        c["bs_dur"] = [0.0] * m
+        c["rf_dur"] = [0.0] * m
+        if where == "record_failure" and not cfg.get("strategy_objects"):
+            cfg["strategy_objects"] = ["default"] + list(cfg.get("class_strategies", ()))
+            cfg["legacy"] = []
+        if where == "handler" and sc["place"]["handler"] == "none":
+            sc["place"]["handler"] = "call"
+            c["handler"] = [rng.choice(["sleep", "defer", "abort"]) for _ in range(m)]
+        if where == "before_sleep" and sc["place"]["before_sleep"] == "none":
+            sc["place"]["before_sleep"] = "call"
+        if kth > 0 and c.get("handler"):
+            for i in range(kth):
+                c["handler"][i] = "sleep"
+        key = {"handler": "handler_dur", "before_sleep": "bs_dur", "record_failure": "rf_dur"}[where]
+        c[key][kth] = push
+        if where != "record_failure":
+            c.pop("rf_dur", None) if not cfg.get("strategy_objects") else None
+        sc["crossing"] = where
+        out.append(sc)
+    return out
